@@ -39,6 +39,277 @@ type dg struct {
 	css    []string
 	body   []string
 	broke  int // out-of-flow boxes taller than the page emitted so far
+	// gridFr: the grids of this document use flexible (fr) tracks and no item spans several tracks;
+	// otherwise items may span and no track is flexible (see gridSpanFlexDefectOpen; with the constant
+	// false both are allowed in every document)
+	gridFr bool
+	small  bool
+}
+
+// Known-defect switches of the generator (genuine defects of the unchanged tree, notes/C15.md
+// "Genuine defects" 5-8).  While a constant is true the biased generator does not emit the triggering
+// feature combination, and documents of the other generator that contain it are left out of the
+// comparisons (knownDefectDomain in c15.go).  Set a constant to false once the defect is repaired.
+const (
+	// grid.go resolveTracksSizes 1.2.3 indexes the sizing functions with the position of the item in
+	// the iteration over the map childrenPositions: whether an item spanning several tracks counts as
+	// "spanning a flexible track" depends on map order (findings/C15/grid-span-flex-order.json).
+	// Trigger: an item spanning >= 2 tracks in an axis that has an fr track.
+	gridSpanFlexDefectOpen = true
+	// grid.go resolveTracksSizes 1.2.2 ('y'): the items of a row are measured in map order, each with
+	// the running maximum of the previous ones as the height of its containing block: a percentage
+	// height of an item resolves against what happened to be measured before it
+	// (findings/C15/grid-row-percent-height-order.json).  Trigger: percentage height on a grid item.
+	gridPercentHeightDefectOpen = true
+	// text/quotes.go GetLangQuotes ranges over the map langQuotes and takes the first key that is a
+	// prefix of the language: "fr_CA_x" gets the quotes of "fr" or of "fr_CA"
+	// (findings/C15/lang-quotes-prefix-order.json).  Trigger: quotes: auto and a language that is not a
+	// key itself and has two keys as prefixes.
+	langQuotesPrefixDefectOpen = true
+	// svg/tree.go inheritDefs ranges over the map of definitions: with a cycle of href references
+	// between gradients what each one inherits depends on where the iteration enters the cycle
+	// (findings/C15/svg-gradient-href-cycle-order.json).  Trigger: href cycle of length >= 2.
+	svgHrefCycleDefectOpen = true
+	// grid.go resolveTracksSizes measures the items by laying them out in map order with the real
+	// layout context: the footnotes of the items are appended to the page's footnote area in that order
+	// (findings/C15/grid-footnote-order.json).  Trigger: footnotes in two items of a grid.
+	gridFootnoteOrderDefectOpen = true
+)
+
+func (g *dg) frOK() bool   { return !gridSpanFlexDefectOpen || g.gridFr }
+func (g *dg) spanOK() bool { return !gridSpanFlexDefectOpen || !g.gridFr }
+
+// languages with region / script / variant subtags.  langsSafe: at most one key of webrender's
+// quotes table can be a prefix (the table's keys use "_", BCP 47 tags use "-"), or the tag is a key.
+var langsSafe = []string{"en", "fr", "de", "nl", "en-GB", "en-US", "fr-CA", "fr-CH", "de-AT", "de-CH-1996", "nl-BE", "it-CH", "pt-BR", "hu", "ja", "zh-Hant", "sr-Latn-RS", "fr_CA", "fr_CH", "el_POLYTON", "kkj", "und", "x-k", "FR", "ru"}
+
+// langsAmbiguous: not a key, and two keys are prefixes (different quotes except for sr_Latn_RS).
+var langsAmbiguous = []string{"fr_CA_x", "fr_CH_1996", "bs_Cyrl_BA", "el_POLYTON_x", "it_CH_x", "oc_ES_aranes", "ti_ER_x", "kkj-CM", "kab-DZ", "kabx", "sr_Latn_RS"}
+
+const explicitQuotes = `quotes: '<' '>' '(' ')'`
+
+// langAttr returns ` lang="…"` (+ an inline style when the language needs explicit quotes).
+func (g *dg) langAttr(extraStyle string) string {
+	r := g.r
+	if r.Intn(3) == 0 {
+		l := gen.Pick(r, langsAmbiguous)
+		st := extraStyle
+		if langQuotesPrefixDefectOpen || r.Intn(3) == 0 {
+			st = explicitQuotes + "; " + st
+		}
+		return fmt.Sprintf(` lang="%s" data-la style="%s"`, l, st)
+	}
+	if extraStyle != "" {
+		return fmt.Sprintf(` lang="%s" data-ls style="%s"`, gen.Pick(r, langsSafe), extraStyle)
+	}
+	return fmt.Sprintf(` lang="%s" data-ls`, gen.Pick(r, langsSafe))
+}
+
+// quoted returns nested <q> elements, depth levels deep, some with their own language.
+func (g *dg) quoted(depth int) string {
+	r := g.r
+	if depth <= 0 {
+		return g.words(1)
+	}
+	la := ""
+	if r.Intn(3) == 0 {
+		la = g.langAttr("")
+	}
+	return fmt.Sprintf(`%s <q%s data-q%d>%s</q> %s`, g.words(1), la, depth, g.quoted(depth-1), gen.Pick(r, []string{"", g.words(1)}))
+}
+
+// langSection: language-dependent features: quotes: auto under languages with subtags, nested <q>,
+// open-quote / close-quote in pseudo-elements, :lang(), hyphenation with regional tags.
+func (g *dg) langSection() {
+	r := g.r
+	switch r.Intn(4) {
+	case 0:
+		g.body = append(g.body, fmt.Sprintf(`<p%s>%s</p>`, g.langAttr(""), g.quoted(2+r.Intn(3))))
+	case 1:
+		g.body = append(g.body, fmt.Sprintf(`<div%s><p class="oq">%s</p><p class="oq"%s>%s <span class="oq">%s</span></p></div>`, g.langAttr(""), g.words(2), g.langAttr(""), g.words(1), g.quoted(1)))
+	case 2:
+		// hyphenation under a regional tag of a language with a dictionary
+		lang := gen.Pick(r, []string{"en-GB", "en-US", "fr-CA", "fr-CH", "de-AT", "de-CH-1996", "nl-BE", "fr_CA", "FR"})
+		var p []string
+		for i := 0; i < 3+r.Intn(4); i++ {
+			p = append(p, gen.Pick(r, hyphWords[strings.ToLower(lang[:2])]))
+		}
+		cls := "hy"
+		if g.gotext {
+			cls = "hm"
+			for i := range p {
+				if rs := []rune(p[i]); len(rs) > 8 {
+					p[i] = string(rs[:4]) + "\u00ad" + string(rs[4:8]) + "\u00ad" + string(rs[8:])
+				}
+			}
+		}
+		g.body = append(g.body, fmt.Sprintf(`<p lang="%s" data-ls class="%s" style="width:%dpx">%s <q>%s</q></p>`, lang, cls, 60+10*r.Intn(8), strings.Join(p, " "), g.words(1)))
+	default:
+		n := 2 + r.Intn(3)
+		var sb strings.Builder
+		for i := 0; i < n; i++ {
+			fmt.Fprintf(&sb, `<li%s><q>%s</q> %s</li>`, g.langAttr(""), g.quoted(1), g.words(1))
+		}
+		g.body = append(g.body, "<ul>"+sb.String()+"</ul>")
+	}
+}
+
+var (
+	tracksFixed = []string{"20px", "30px", "2em", "45px", "25%", "auto", "auto", "min-content", "max-content", "minmax(10px, auto)", "minmax(min-content, 40px)", "minmax(20px, max-content)", "minmax(auto, 50px)"}
+	tracksFlex  = []string{"1fr", "2fr", "1fr", "minmax(10px, 1fr)", "minmax(min-content, 1fr)", "minmax(auto, 2fr)", "1.5fr"}
+)
+
+func (g *dg) track() string {
+	if g.frOK() && g.r.Intn(3) == 0 {
+		return gen.Pick(g.r, tracksFlex)
+	}
+	return gen.Pick(g.r, tracksFixed)
+}
+
+func (g *dg) trackList(n int) string {
+	r := g.r
+	var t []string
+	for i := 0; i < n; i++ {
+		t = append(t, g.track())
+	}
+	if n >= 2 && n%2 == 0 && r.Intn(4) == 0 {
+		return fmt.Sprintf("repeat(%d, %s)", n/2, strings.Join(t[:2], " "))
+	}
+	if r.Intn(6) == 0 {
+		t[0] = "[first] " + t[0]
+		t[len(t)-1] += " [last]"
+	}
+	return strings.Join(t, " ")
+}
+
+// grid emits a grid container: explicit templates with fixed / intrinsic / minmax / fr tracks,
+// implicit tracks, auto-placed and explicitly placed items, items spanning several tracks, alignment
+// keywords, nested grids.
+func (g *dg) grid(depth int) string {
+	r := g.r
+	ncols := 2 + r.Intn(3)
+	mark := ""
+	if depth > 0 {
+		mark += " data-gn"
+	}
+	st := []string{"display:" + gen.Pick(r, []string{"grid", "grid", "grid", "inline-grid"}), "grid-template-columns: " + g.trackList(ncols)}
+	nrows := 0
+	if r.Intn(2) == 0 {
+		nrows = 1 + r.Intn(3)
+		st = append(st, "grid-template-rows: "+g.trackList(nrows))
+	}
+	if r.Intn(3) == 0 {
+		st = append(st, fmt.Sprintf("height:%dpx", 40+10*r.Intn(6)))
+	}
+	if r.Intn(2) == 0 {
+		st = append(st, gen.Pick(r, []string{"gap:2px", "gap: 1px 4px", "column-gap: 3px", "row-gap: 0.5em"}))
+	}
+	if r.Intn(3) == 0 {
+		st = append(st, "grid-auto-flow:"+gen.Pick(r, []string{"row", "column", "row", "column"}))
+	}
+	if r.Intn(3) == 0 {
+		st = append(st, "grid-auto-rows:"+gen.Pick(r, []string{"auto", "15px", "min-content", "minmax(10px, auto)", "20px 10px"}))
+	}
+	if r.Intn(4) == 0 {
+		st = append(st, "grid-auto-columns:"+gen.Pick(r, []string{"auto", "20px", "min-content"}))
+	}
+	if r.Intn(4) == 0 {
+		st = append(st, gen.Pick(r, []string{"justify-content:center", "justify-content:space-between", "align-content:end", "justify-items:center", "align-items:start", "justify-content:space-evenly; align-content:space-around"}))
+	}
+	if strings.Contains(strings.Join(st, ";"), "fr") {
+		mark += " data-gf"
+	}
+	n := 3 + r.Intn(7)
+	var sb strings.Builder
+	for i := 0; i < n; i++ {
+		var is []string
+		span := false
+		switch k := r.Intn(10); {
+		case k < 4: // auto placement
+		case k < 6 && g.spanOK():
+			// spans stay inside the explicit columns: items that need implicit columns (a span wider than
+			// the template, a line beyond it, dense packing) often panic in gridLayout / resolveTracksSizes
+			// (slice bounds; C01's domain, findings/C15/crash-grid-*.json)
+			// (auto-placed column spans overflow the last column the same way: the column of a spanning
+			// item is always given)
+			a := 1 + r.Intn(ncols-1)
+			c := []string{fmt.Sprintf("grid-column: %d / span 2", a), fmt.Sprintf("grid-column: %d / span 2", a), "grid-row: span 2", fmt.Sprintf("grid-column: %d / span 2; grid-row: span 2", a)}
+			if ncols >= 3 {
+				c = append(c, fmt.Sprintf("grid-column: %d / span 3", 1+r.Intn(ncols-2)))
+			}
+			is = append(is, gen.Pick(r, c))
+			span = true
+		case k < 7 && g.spanOK():
+			a := 1 + r.Intn(ncols-1)
+			is = append(is, gen.Pick(r, []string{fmt.Sprintf("grid-column: %d / %d", a, a+2), fmt.Sprintf("grid-row: %d / %d", 1+r.Intn(2), 3+r.Intn(2)), fmt.Sprintf("grid-area: %d / %d / %d / %d", 1+r.Intn(2), a, 3+r.Intn(2), a+2)}))
+			span = true
+		case k < 9:
+			// no negative line numbers: "grid-column: -1" and "1 / -1" panic in resolveTracksSizes (slice
+			// bounds, grid.go:527; C01's domain, findings/C15/crash-grid-negative-line.json)
+			is = append(is, gen.Pick(r, []string{fmt.Sprintf("grid-column: %d", 1+r.Intn(ncols)), fmt.Sprintf("grid-row: %d", 1+r.Intn(3)), fmt.Sprintf("grid-column: %d; grid-row: %d", 1+r.Intn(ncols), 1+r.Intn(3)), "order: -1", "order: 2"}))
+		default:
+		}
+		if r.Intn(3) == 0 {
+			hs := []string{"padding: 1px", "border: 1px solid", "margin: 1px 2px", "min-height: 15px", "width: 50%", "height: 12px", "align-self: end", "justify-self: center", "justify-self: start; align-self: center", "background: #ddd", "padding: 5%"}
+			if !gridPercentHeightDefectOpen {
+				hs = append(hs, "height: 150%", "height: 200%", "height: 50%", "min-height: 120%")
+			}
+			is = append(is, gen.Pick(r, hs))
+		}
+		content := g.words(1 + r.Intn(2))
+		switch k := r.Intn(12); {
+		case k == 0 && depth < 1:
+			content = g.grid(depth + 1)
+		case k == 1:
+			content = "abcdefghijklmnop"[:6+r.Intn(10)]
+		case k == 2:
+			content = g.quoted(1)
+		case k == 3 && !gridFootnoteOrderDefectOpen:
+			content += ` <span class="fg">` + g.words(1) + `</span>`
+		case k == 4:
+			content = g.words(4 + r.Intn(5))
+		}
+		sm := ""
+		if span {
+			sm = " data-gs"
+		}
+		if r.Intn(4) == 0 {
+			sm += fmt.Sprintf(` id="%s"`, g.id())
+		}
+		fmt.Fprintf(&sb, `<div%s style="%s">%s</div>`, sm, strings.Join(is, "; "), content)
+	}
+	return fmt.Sprintf(`<div class="gr"%s style="%s">%s</div>`, mark, strings.Join(st, "; "), sb.String())
+}
+
+// gradSVG builds an SVG whose gradients / patterns inherit from each other through href chains.
+func gradSVG(r *rand.Rand) string {
+	n := 2 + r.Intn(3)
+	var sb strings.Builder
+	sb.WriteString(`<svg xmlns="http://www.w3.org/2000/svg" xmlns:xlink="http://www.w3.org/1999/xlink" width="40" height="10" color="` + gen.Pick(r, []string{"red", "green", "#246"}) + `"><defs>`)
+	for i := 0; i < n; i++ {
+		href := ""
+		switch {
+		case i+1 < n && r.Intn(4) != 0:
+			href = fmt.Sprintf(` %s="#g%d"`, gen.Pick(r, []string{"href", "xlink:href"}), i+1)
+		case !svgHrefCycleDefectOpen && r.Intn(2) == 0:
+			href = fmt.Sprintf(` href="#g%d"`, r.Intn(n)) // backwards: a cycle
+		case r.Intn(6) == 0:
+			href = fmt.Sprintf(` href="#g%d"`, i) // itself
+		}
+		attrs := gen.Pick(r, []string{"", ` x1="0" y1="0" x2="0" y2="1"`, ` gradientUnits="userSpaceOnUse" x2="10"`, ` spreadMethod="reflect" x2="0.3"`, ` gradientTransform="rotate(45)"`})
+		stops := ""
+		if i == n-1 || r.Intn(2) == 0 {
+			stops = fmt.Sprintf(`<stop offset="0" stop-color="%s"/><stop offset="1" stop-color="%s"/>`, gen.Pick(r, []string{"red", "currentColor", "#0a0"}), gen.Pick(r, []string{"blue", "white", "inherit"}))
+		}
+		tag := gen.Pick(r, []string{"linearGradient", "linearGradient", "radialGradient"})
+		fmt.Fprintf(&sb, `<%s id="g%d"%s%s>%s</%s>`, tag, i, href, attrs, stops, tag)
+	}
+	sb.WriteString(`<rect id="rc" width="8" height="8" stroke="currentColor"/></defs>`)
+	for i := 0; i < n; i++ {
+		fmt.Fprintf(&sb, `<rect x="%d" width="9" height="10" fill="url(#g%d)"/>`, 10*i, i)
+	}
+	sb.WriteString(`<g fill="` + gen.Pick(r, []string{"currentColor", "blue"}) + `" stroke="inherit"><use href="#rc" x="30" fill="inherit"/></g></svg>`)
+	return sb.String()
 }
 
 func (g *dg) id() string {
@@ -99,7 +370,17 @@ func (g *dg) hyphenPara() {
 // section emits one block exercising one feature.
 func (g *dg) section() {
 	r := g.r
-	switch r.Intn(15) {
+	k := r.Intn(22)
+	if g.small && k >= 15 && r.Intn(2) == 0 {
+		k = r.Intn(15) // cold-start documents keep their bias to hyphenation and the older families
+	}
+	switch k {
+	case 15, 16, 17: // grid containers
+		g.body = append(g.body, g.grid(0))
+	case 18, 19, 20: // language-dependent features
+		g.langSection()
+	case 21: // gradients inheriting through href chains, in an image
+		g.body = append(g.body, fmt.Sprintf(`<p>%s <img src="mem://doc/grad.svg" style="width:%dpx; height:10px"></p>`, g.words(1), 40+20*r.Intn(2)))
 	case 0: // many anchors on one page
 		n := 3 + r.Intn(10)
 		var sb strings.Builder
@@ -146,7 +427,7 @@ func (g *dg) section() {
 		n := 1 + r.Intn(4)
 		var sb strings.Builder
 		for i := 0; i < n; i++ {
-			fmt.Fprintf(&sb, `<li><a class="tc" href="#%s">%s</a></li>`, g.someID(), gen.Pick(r, plainWords))
+			fmt.Fprintf(&sb, `<li><a class="%s" href="#%s">%s</a></li>`, gen.Pick(r, []string{"tc", "tc", "tc bt"}), g.someID(), gen.Pick(r, plainWords))
 		}
 		g.body = append(g.body, "<ul class=toc>"+sb.String()+"</ul>")
 	case 6: // lists with custom counter styles
@@ -186,7 +467,7 @@ func (g *dg) section() {
 		for i := 0; i < n; i++ {
 			fmt.Fprintf(&sb, `<div style="%s" id="%s">%s</div>`, gen.Pick(r, []string{"flex:1", "flex:2 1 20px", "grid-column:1", "grid-row:2", "order:-1", ""}), g.id(), g.words(1+r.Intn(2)))
 		}
-		g.body = append(g.body, fmt.Sprintf(`<div style="display:%s; %s">%s</div>`, gen.Pick(r, []string{"flex", "grid", "inline-flex"}), gen.Pick(r, []string{"", "flex-wrap:wrap", "grid-template-columns: 1fr 2fr", "grid-template-columns: repeat(3, 40px); gap: 2px", "grid-template-areas: 'a b' 'c d'", "flex-direction:column"}), sb.String()))
+		g.body = append(g.body, fmt.Sprintf(`<div style="display:%s; %s">%s</div>`, gen.Pick(r, []string{"flex", "grid", "inline-flex"}), gen.Pick(r, []string{"", "flex-wrap:wrap", "grid-template-columns: " + g.track() + " " + g.track(), "grid-template-columns: repeat(3, 40px); gap: 2px", "grid-template-areas: 'a b' 'c d'", "flex-direction:column"}), sb.String()))
 	case 11: // multi-column
 		g.body = append(g.body, fmt.Sprintf(`<div style="columns:%d; column-gap:4px"><p id="%s">%s</p><p>%s</p></div>`, 2+r.Intn(2), g.id(), g.words(8+r.Intn(10)), g.words(5+r.Intn(10))))
 	case 12: // pseudo-elements and generated content
@@ -196,8 +477,12 @@ func (g *dg) section() {
 		}
 	case 13: // invalid declarations: warnings through the shared logger
 		g.body = append(g.body, fmt.Sprintf(`<p style="%s; color: %s">%s</p>`, gen.Pick(r, []string{"widht: 3px", "width: bogus", "margin: 1px 2px 3px 4px 5px", "transform: spin(3)", "content: counter()", "display: ruby-text"}), gen.Pick(r, []string{"red", "notacolor", "#12"}), g.words(3)))
-	default: // plain paragraphs (pagination, orphans/widows)
-		g.body = append(g.body, fmt.Sprintf(`<p id="%s">%s</p>`, g.id(), g.words(10+r.Intn(40))))
+	default: // plain paragraphs (pagination, orphans/widows), some with footnotes
+		fn := ""
+		if r.Intn(3) == 0 {
+			fn = ` <span class="fn">` + g.words(1+r.Intn(3)) + `</span> ` + g.words(2)
+		}
+		g.body = append(g.body, fmt.Sprintf(`<p id="%s">%s%s</p>`, g.id(), g.words(10+r.Intn(40)), fn))
 	}
 }
 
@@ -208,7 +493,8 @@ func biasedDoc(r *rand.Rand) gen.Doc { return buildDoc(r, false) }
 func smallDoc(r *rand.Rand) gen.Doc { return buildDoc(r, true) }
 
 func buildDoc(r *rand.Rand, small bool) gen.Doc {
-	g := &dg{r: r, gotext: r.Intn(4) == 0}
+	g := &dg{r: r, gotext: r.Intn(4) == 0, small: small}
+	g.gridFr = r.Intn(2) == 0
 	if small {
 		g.gotext = r.Intn(8) == 0
 	}
@@ -237,6 +523,9 @@ func buildDoc(r *rand.Rand, small bool) gen.Doc {
 		`.gc3::first-letter { font-size: 14px } .gc3::before { content: url(`+pngDot+`) }`,
 		`.q::marker { content: "* " } .q { display: list-item; margin-left: 15px }`,
 		`td { border: 1px solid; padding: 1px } a { color: blue }`,
+		`.gr { margin: 2px 0 } .gr > div { outline: 1px solid }`,
+		`.oq::before { content: open-quote } .oq::after { content: close-quote } q:lang(fr) { color: #333 } p:lang(de) { letter-spacing: 1px }`,
+		`.fn, .fg { float: footnote } .bt { bookmark-level: 2; bookmark-label: "B" target-counter(attr(href), page) " " target-text(attr(href), content); string-set: ti target-text(attr(href), content) }`,
 	)
 	// every document defines its own subset of the counter styles cs1..cs4, with its own symbols: a
 	// definition leaking from one render into the next one changes the markers of the other document
@@ -295,7 +584,7 @@ func buildDoc(r *rand.Rand, small bool) gen.Doc {
 	if r.Intn(3) == 0 {
 		meta += `<link rel="stylesheet" href="mem://doc/extra.css">`
 	}
-	html := `<!DOCTYPE html><html lang="` + gen.Pick(r, []string{"en", "fr", "de"}) + `"><head>` + meta + `<style>` + strings.Join(g.css, "\n") + `</style></head><body>` + strings.Join(g.body, "\n") + `</body></html>`
+	html := `<!DOCTYPE html><html lang="` + gen.Pick(r, []string{"en", "fr", "de", "en-GB", "fr-CA", "de-AT"}) + `"><head>` + meta + `<style>` + strings.Join(g.css, "\n") + `</style></head><body>` + strings.Join(g.body, "\n") + `</body></html>`
 	d := gen.Doc{HTML: html, Hints: r.Intn(3) == 0}
 	if g.gotext {
 		d.Engine = "gotext"
@@ -309,6 +598,7 @@ func buildDoc(r *rand.Rand, small bool) gen.Doc {
 	d.Files = map[string]string{
 		// same URLs in every document, different contents: a process-wide cache keyed by URL would leak
 		"extra.css": fmt.Sprintf(`p { letter-spacing: %dpx } #k37 { color: %s }`, r.Intn(3), gen.Pick(r, []string{"red", "green", "blue"})),
+		"grad.svg":  gradSVG(r),
 		"pic.svg":   fmt.Sprintf(`<svg xmlns="http://www.w3.org/2000/svg" width="%d" height="8"><rect width="4" height="%d" fill="%s"/><text x="1" y="7" font-family="Ahem" font-size="4">ab</text></svg>`, 6+r.Intn(6), 2+r.Intn(5), gen.Pick(r, []string{"green", "red", "#123456"})),
 	}
 	return d
